@@ -734,6 +734,15 @@ theorem construct_same_iff {s s1 s2 : St} {c c' : Nat} {cy cy' : Bool} {a a' : L
   rw [identity_iff_structural i2 m1' m2, c1, c2, k1, k2]
   simp
 
+/-- DESIGN.md names: `construct_identity` = `construct_same_iff`, `no_stale` = `lookup_sound`. -/
+theorem construct_identity {s s1 s2 : St} {c c' : Nat} {cy cy' : Bool} {a a' : List ArgTok}
+    {n n' r1 r2 : Id} (h : Inv s) (h1 : construct s c cy a n = .ok (s1, r1))
+    (h2 : construct s1 c' cy' a' n' = .ok (s2, r2)) :
+    r1 = r2 ↔ (c = c' ∧ mkKey a = mkKey a') := construct_same_iff h h1 h2
+
+theorem no_stale {s : St} (h : Inv s) {k : CKey} {i : Id} (hl : lookup s.cache k = some i) :
+    ∃ o, (i, o) ∈ s.objs ∧ (o.cls, o.key) = k ∧ mkKey o.args = some o.key := lookup_sound h hl
+
 /-! ### weakly held -/
 
 /-- Freeing an object removes its table entry with it: no later lookup can return it. -/
